@@ -937,7 +937,7 @@ def _execute_c08_template(scn, scared):
             K, kw = scared.TemplateAttack, {}
         else:
             K = scared.TemplateDPAAttack
-            kw = {'selection_function': scared.attack_selection_function(kinds._make_leak_sf(classes, scn.get('vdtype') or 'uint8'), guesses=range(k), words=0)}
+            kw = {'selection_function': scared.attack_selection_function(kinds._make_leak_sf(classes, scn.get('vdtype') or 'uint8'), guesses=range(scn.get('tguess') or k), words=0)}
         if record:
             K = recording(K, rec, storage)
         a = K(container_building=scared.Container(ths), reverse_selection_function=rsf, model=scared.Value(), partitions=classes,
@@ -949,7 +949,7 @@ def _execute_c08_template(scn, scared):
         meta = {'value': vm[lo:hi, None].copy()} if kind == 'tstatic' else {'plaintext': ptm[lo:hi]}
         return scared.Container(make_ths(storage, Tm[lo:hi], meta, tag))
 
-    DD = vm[:, None].copy() if kind == 'tstatic' else np.stack([kinds.leak(classes, ptm[:, 0], g, scn.get('vdtype') or 'uint8') for g in range(k)], 1)
+    DD = vm[:, None].copy() if kind == 'tstatic' else np.stack([kinds.leak(classes, ptm[:, 0], g, scn.get('vdtype') or 'uint8') for g in range(scn.get('tguess') or k)], 1)
     tol = compare.tol_for(scn['precision'])
     cols_after_run = []
     with env.clock(env.SimClock()), env.memory(env.SimMemory()):
@@ -1133,6 +1133,10 @@ def generate_c14(seed, tier):
             scn['precision'] = 'float64'
     if L >= 2 and rng.stream(seed, 'zerocol').random() < 0.12 and not scn.get('common'):
         scn['zero_col'] = rng.stream(seed, 'zerocol2').randrange(L)
+    tg = rng.stream(seed, 'tguess')
+    if scn['kind'] == 'tdpa' and tg.random() < 0.3:
+        # the number of key guesses is not the number of classes (256 guesses over 9 Hamming-weight classes is the standard configuration)
+        scn['tguess'] = min(256, tg.choice([1, 2, k + 1, 2 * k, 16, 256] if k <= 12 else [1, 2, k + 1, 16]))      # guesses are bytes in scared
     hs = rng.stream(seed, 'history')
     scn['build_twice'] = hs.random() < 0.12
     scn['build_fault'] = hs.choice([0, 0, 1, 2, 3]) if hs.random() < 0.12 else None
@@ -1212,7 +1216,7 @@ def _c14_attack(scn, scared, storage, Tb, vb, tag='build', like=None):
     if scn['kind'] == 'tstatic':
         a = scared.TemplateAttack(container_building=cont, reverse_selection_function=rsf, model=model, partitions=classes, precision=scn['precision'])
     else:
-        asf = scared.attack_selection_function(kinds._make_leak_sf(list(scn['classes']), scn.get('vdtype') or 'uint8'), guesses=range(k), words=0)
+        asf = scared.attack_selection_function(kinds._make_leak_sf(list(scn['classes']), scn.get('vdtype') or 'uint8'), guesses=range(scn.get('tguess') or k), words=0)
         a = scared.TemplateDPAAttack(container_building=cont, reverse_selection_function=rsf, selection_function=asf,
                                      model=model, partitions=classes, precision=scn['precision'])
     a._c14_rsf = rsf
@@ -1301,7 +1305,7 @@ def execute_c14(scn):
             except Exception as e:
                 violation = viol('build_raised', ['C14', 'build_raised'] + sig_tail + [type(e).__name__], 'build() raised %r' % (e,))
         if violation is None:
-            hyp = np.stack([kinds.leak(classes, ptm[:, 0], g) for g in range(k)], 1) if kind == 'tdpa' else None
+            hyp = np.stack([kinds.leak(classes, ptm[:, 0], g) for g in range(scn.get('tguess') or k)], 1) if kind == 'tdpa' else None
             mus, S, sc = c14_model(Tb, vb, classes, Tm, hyp)
             nzd = np.diag(S) != 0
             Sred = S[np.ix_(nzd, nzd)] if (nzd.any() and not nzd.all() and not S[~nzd].any() and not S[:, ~nzd].any()) else S
